@@ -1,0 +1,93 @@
+//go:build verif
+
+package main
+
+import (
+	"os"
+	"path/filepath"
+	"strings"
+)
+
+var _ = func() bool {
+	// linkargs <curpkg> <importcfg content> <args...> : the real transformLink; the token @CFG@ in args stands for
+	// the path of the importcfg written from <importcfg content>. Answer: rewritten args (new importcfg path shown
+	// as @NEW@) | content of the new importcfg
+	verifOps["linkargs"] = func(a []string) string {
+		tf := verifTransformer(string(verifUnhex(a[0])))
+		dir, err := os.MkdirTemp("", "verif-link")
+		if err != nil {
+			panic(err)
+		}
+		defer os.RemoveAll(dir)
+		sharedTempDir = dir
+		cfgPath := filepath.Join(dir, "importcfg.link")
+		if err := os.WriteFile(cfgPath, verifUnhex(a[1]), 0o666); err != nil {
+			panic(err)
+		}
+		args := verifToks(a[2:])
+		for i := range args {
+			args[i] = strings.ReplaceAll(args[i], "@CFG@", cfgPath)
+		}
+		out, err := tf.transformLink(args)
+		if err != nil {
+			return "err " + verifHex([]byte(err.Error()))
+		}
+		newCfg := flagValue(out, "-importcfg")
+		content, _ := os.ReadFile(newCfg)
+		for i := range out {
+			out[i] = strings.ReplaceAll(out[i], newCfg, "@NEW@")
+			out[i] = strings.ReplaceAll(out[i], cfgPath, "@CFG@")
+		}
+		return verifList(out) + " | " + verifHex(content)
+	}
+	// printfile <pkg> <file base name> : the real printFile on the freshly parsed file (no renaming), as text
+	verifOps["printfile"] = func(a []string) string {
+		lpkg, ok := sharedCache.ListedPackages.get(string(verifUnhex(a[0])))
+		if !ok {
+			return "!nopkg"
+		}
+		base := string(verifUnhex(a[1]))
+		files, err := parseFiles(lpkg, lpkg.Dir, []string{base}, false)
+		if err != nil {
+			return "err " + verifHex([]byte(err.Error()))
+		}
+		src, err := printFile(lpkg, files[0])
+		if err != nil {
+			return "err " + verifHex([]byte(err.Error()))
+		}
+		return verifHex(src)
+	}
+	// xformfile <pkg> <file base name> : transformGoFile + printFile, as the compile step does for one file
+	verifOps["xformfile"] = func(a []string) string {
+		path := string(verifUnhex(a[0]))
+		lpkg, ok := sharedCache.ListedPackages.get(path)
+		if !ok {
+			return "!nopkg"
+		}
+		// a fresh transformer: transformGoFile mutates the syntax tree
+		delete(verifTransformers, path)
+		tf, files, err := transformerForListedPackage(lpkg)
+		if err != nil {
+			return "err " + verifHex([]byte(err.Error()))
+		}
+		delete(verifTransformers, path)
+		base := string(verifUnhex(a[1]))
+		for i, f := range files {
+			if filepath.Base(lpkg.CompiledGoFiles[i]) != base {
+				continue
+			}
+			if err := tf.transformDirectives(f.Comments); err != nil {
+				return "err " + verifHex([]byte(err.Error()))
+			}
+			f = tf.transformGoFile(f)
+			f.Name.Name = lpkg.obfuscatedPackageName()
+			src, err := printFile(lpkg, f)
+			if err != nil {
+				return "err " + verifHex([]byte(err.Error()))
+			}
+			return verifHex(src)
+		}
+		return "!nofile"
+	}
+	return true
+}()
